@@ -45,6 +45,13 @@ CONSTANT = ('K', 'TEN', 'integer', '10')
 # (string), and the group L has a constant named like the enumerator Red -- a qualified name NS::name must be
 # resolved relative to NS
 ENUMS = [ENUM, ('Mode', ['Off', 'Red', 'On'])]
+# SWITCHED OFF -- finding on the unchanged tree (reported, repair pending): a user data type defined over an enumeration
+# (S_UDT 'Tint' over 'Color', R18).  prebuild.accept_EnumOrNamedConstantNode resolves the alias and relates the V_LEN to
+# the S_ENUM of Color; sourcegen.accept_V_LEN prints the name of the enumeration, so "x = Tint::Red;" is regenerated
+# as "x = Color::Red;" -- another namespace in the tree (sig c05:AssignmentNode:namespace).  Set to True to explore it:
+# the host then declares the alias and the family "names" reads Tint::Red next to every other qualified name.
+EXPLORE_ENUM_ALIASES = False
+ENUM_ALIASES = [('Tint', 'Color')]
 CONSTANTS = [CONSTANT, ('L', 'TEN', 'string', 'ten'), ('L', 'Red', 'integer', '7')]
 # relationship number -> description
 RELS = {1: ('simple', 'A', 'B'), 2: ('reflexive', 'A', 'A'), 3: ('linked', 'A', 'B', 'C')}
@@ -120,6 +127,13 @@ def build_host(m):
             if prev is not None:
                 rel(prev, s_enum, 56, 'precedes')
             prev = s_enum
+    if EXPLORE_ENUM_ALIASES:
+        for alias, base in ENUM_ALIASES:
+            s_dt = m.new('S_DT', Name=alias)
+            pe(s_dt, 3)
+            s_udt = m.new('S_UDT')
+            rel(s_udt, s_dt, 17)
+            rel(s_udt, dt(base), 18)
     enums = m.select_many('S_ENUM')
     second = [e for e in enums if e.Name == ENUM[1][1]][0]
     first = [e for e in enums if e.Name == ENUM[1][0]][0]
@@ -773,12 +787,21 @@ class Analysis(object):
         for ename, enumerators in ENUMS:
             if ns == ename and name in enumerators:
                 e['claim'] = 'enumerator'
+                e['qkind'] = 'enumerator'
                 self.features.add('enumerator')
                 self.qualified_read('enumerator', ns, name)
                 return ename
+        if EXPLORE_ENUM_ALIASES:
+            for alias, base in ENUM_ALIASES:
+                if ns == alias and name in dict(ENUMS)[base]:
+                    self.features.add('enumerator:through-alias')
+                    e['qkind'] = 'enumerator'
+                    self.qualified_read('enumerator', ns, name)
+                    return base                     # the type of the value is not claimed (alias or enumeration)
         for gname, cname, cty, _ in CONSTANTS:
             if ns == gname and name == cname:
                 e['claim'] = 'constant'
+                e['qkind'] = 'constant'
                 self.features.add('constant')
                 self.qualified_read('constant', ns, name)
                 return cty
@@ -1813,7 +1836,10 @@ def family_nesting(tier):
 
 def qualified_names():
     '''Every enumerator and every constant of the host as a qualified read.'''
-    return [('enum', ename, n) for ename, ns in ENUMS for n in ns] + [('enum', g, c) for g, c, _, _ in CONSTANTS]
+    out = [('enum', ename, n) for ename, ns in ENUMS for n in ns] + [('enum', g, c) for g, c, _, _ in CONSTANTS]
+    if EXPLORE_ENUM_ALIASES:
+        out += [('enum', alias, dict(ENUMS)[base][0]) for alias, base in ENUM_ALIASES]
+    return out
 
 
 def family_names(tier):
@@ -2277,7 +2303,7 @@ class Walk(object):
             k = class_of(var.t)
             kind = 'V_TVL' if not k else ('V_ISR' if k[1] else 'V_IRF')
         elif cls == 'EnumOrNamedConstantNode':
-            kind = 'V_LEN' if e['claim'] == 'enumerator' else 'V_SCV'
+            kind = 'V_LEN' if e['qkind'] == 'enumerator' else 'V_SCV'
         elif cls.endswith('InvocationNode'):
             kind = INVOCATION_VAL[e['kind']][0]
         else:
